@@ -145,16 +145,28 @@ class Gen:
             pool = list(kinds or self.p["kinds"])
         kind = rng.choice(pool)
         masks = None
-        if self.p["gap_heavy"] and kind in gen.SEGMENTED:
+        if self.p["gap_heavy"] and kind in gen.SEGMENTED and rng.random() < 0.8:
+            # stratified presence masks: run i enumerates masks 3*(i//4), 3*(i//4)+1, ... of track
+            # kind i%4, so 4 * ceil(sum(2^n) / 3) runs store every mask over 1..nmax frames
             nmax = 8 if self.tier == "quick" else 10
-            if rng.random() < 0.7:
-                m0 = enumerated_mask(self.index // 4 + len(self.ops) * 7919, nmax) if len(self.ops) > 3 \
-                    else enumerated_mask(self.index // 4, nmax)
-                if len(self.ops) <= 3:
-                    kind = gen.SEGMENTED[self.index % 4] if gen.SEGMENTED[self.index % 4] in pool else kind
-                k = rng.randint(1, 3)
-                masks = [m0] + [gen.mask(rng, len(m0)) for _ in range(k - 1)]
-                rng.shuffle(masks)
+            want = gen.SEGMENTED[self.index % 4]
+            if want in pool:
+                kind = want
+            if not hasattr(self, "mask_cursor"):
+                self.mask_cursor = (self.index // 4) * 3
+            m0 = enumerated_mask(self.mask_cursor, nmax)
+            masks = [m0]
+            for t in range(1, rng.randint(1, 3)):
+                m = enumerated_mask(self.mask_cursor + t, nmax)
+                if len(m) != len(m0):
+                    break
+                masks.append(m)
+            self.mask_cursor += len(masks)
+        if masks is None and self.tier == "thorough" and rng.random() < 0.004 and kind in ("emg", "data3d"):
+            # a block of a few hundred KiB: size thresholds (buffer sizes, 64 KiB, chunked copies)
+            n = rng.randint(20000, 70000)
+            m = "1" * n if rng.random() < 0.5 else "1" * (n // 3) + "0" * 7 + "1" * (n - n // 3 - 7)
+            return gen.block(rng, kind, masks=[m], fmix="ordinary")
         return gen.block(rng, kind, big=rng.random() < self.p["big"], min_items=min_items, masks=masks)
 
     def init_file(self, f):
@@ -318,7 +330,8 @@ class Gen:
                 r = rng.random()
                 if r < 0.5 and free:
                     g = free[0]
-                    self.emit(op="place", f=g, kind=rng.choice(("junk", "empty", "tdf")), len=rng.randint(1, 300))
+                    self.emit(op="place", f=g, kind=rng.choice(("junk", "empty", "tdf", "short", "sig_only", "almost_sig")),
+                              len=rng.randint(1, 300))
                     self.exists[g] = "junk"
                     targets.append(g)
                 g = rng.choice(targets)
@@ -401,6 +414,7 @@ def gen_run(rng, prop, index, tier):
         "poison": rng.choice(("zero", "x42", "xAA", "ramp", "x42", "xAA")),
         "tz": rng.choice(seams.TZS),
         "epoch": rng.randint(86400 * 800, 2**31 - 86400 * 800),
+        "paths": rng.choice(("str", "Path", "mixed")),
     }
     ops = Gen(rng, prof, index, tier, prop).run()
     return cfg, ops
